@@ -33,7 +33,15 @@ def font_info(font):
         return None
     ver = struct.unpack('>I', s[:4])[0]
     if ver >= 0x00050000 and struct.unpack('>I', s[4:8])[0] >> 27:
-        return None                                   # compressed: not parsed here
+        # compressed layout: version, (scheme << 27 | size), LZ4 block -> the whole table (reference decoder, not the library's)
+        import lz4ref
+        hdr = struct.unpack('>I', s[4:8])[0]
+        try:
+            s = bytes(lz4ref.decode(s[8:], hdr & 0x07FFFFFF)[1])
+        except Exception:
+            return None
+        if len(s) < 40:
+            return None
     off = struct.unpack('>I', s[(12 if ver >= 0x00030000 else 8):(16 if ver >= 0x00030000 else 12)])[0]
     p = off + (8 if ver >= 0x00030000 else 0)
     npass, isub, ipos, ijust, ibidi, flags = struct.unpack('>6B', s[p + 6:p + 12])
@@ -164,11 +172,26 @@ def replay_case(case):
         drv.kill()
 
 
+def is_kf2(case):
+    """the open known finding KF2: text direction != font direction and the segment was cut into >= 2 lines"""
+    if not case.get('breaks'):
+        return False
+    try:
+        info = font_info(cases.font_bytes(case))
+    except Exception:
+        return False
+    return info is not None and (case['dir'] & 1) != (info['dir'] & 1)
+
+
 def replay_file(path):
     d = json.load(open(path))
     try:
         replay_case(d['case'])
     except Violation as v:
+        if is_kf2(d['case']):
+            f = [x for x in fw.load_known() if x.get('id') == 'KF2']
+            print('KNOWN-FINDING: property=%s %s [KF2] (replay of %s: %s)' % (PROP, f[0]['what'] if f else 'direction mismatch with >= 2 lines', path, v.label))
+            return 0
         print('VIOLATION property=%s replay=%s label=%s' % (PROP, path, v.label))
         return 1
     print('replay: property held on', path)
@@ -244,6 +267,11 @@ def worker(ctx):
             except fw.Hang:
                 ctx.hang(case)
                 return
+            except Violation:
+                if is_kf2(case):           # reachable only if the exclusion above could not classify the font
+                    ctx.known_hit('KF2')
+                    return
+                raise
             if res is None:
                 rec.case(no_segment=1)
                 return
